@@ -306,6 +306,20 @@ KERNELS = {"operator*": ("reduced_signed_unsigned_mul", "signed_mul", "unsigned_
            "SDiv": ("signed_div",), "UDiv": ("unsigned_div",)}
 
 
+def _pole_ok(kernel, split_kinds):
+    """unsigned kernels need a cut at the unsigned wrap-around point, signed kernels at the signed one; the product kernel
+    reduced_signed_unsigned_mul needs both"""
+    if not split_kinds:
+        return False
+    cut_u = all(k in ("unsigned_split", "signed_and_unsigned_split") for k in split_kinds)
+    cut_s = all(k in ("signed_split", "signed_and_unsigned_split") for k in split_kinds)
+    if kernel.startswith("unsigned"):
+        return cut_u
+    if kernel.startswith("signed"):
+        return cut_s
+    return cut_u and cut_s
+
+
 def _vec_of_index(e, body, decls):
     """v[i] -> id of v (through one local copy `T d = v[k];`)"""
     e = resolve_local(body, e, decls)
@@ -327,9 +341,11 @@ def r4_split_first(ctx):
             body = fn["body"]
             decls = local_decls(body)
             tags = {}
+            kinds = {}
             for n in walk(body):
                 if is_call(n, name=SPLITS) and n.get("a") and is_ref(n["a"][0]):
                     vid = strip(n["a"][0]).get("id")
+                    kinds.setdefault(vid, set()).add(callee(n)["name"])
                     if is_this(n.get("o")):
                         tags[vid] = "this-split"
                     elif is_param(n.get("o"), fn, 0):
@@ -339,6 +355,7 @@ def r4_split_first(ctx):
                     src_vec = _vec_of_index(n.get("o"), body, decls)
                     if tags.get(src_vec) == "x-split":
                         tags[strip(n["a"][0]).get("id")] = "x-trim"
+                        kinds[strip(n["a"][0]).get("id")] = kinds.get(src_vec, set())
             ks = [n for n, ps in nodes_not_in_log(body, lambda x: is_call(x, name=kernels))]
             if not ks:
                 ctx.bad("wrapped_interval::%s no longer computes through %s" % (name, "/".join(kernels)), fn, body, sig="wi-no-kernel:%s" % name)
@@ -352,6 +369,16 @@ def r4_split_first(ctx):
                     ctx.bad("wrapped_interval::%s applies %s to `%s`, which is not a piece of *this split at the poles: the kernel "
                             "assumes its operand does not cross the signed/unsigned wrap-around points" % (name, callee(k)["name"], src(k.get("o"))[:40]),
                             fn, k, sig="wi-unsplit-receiver:%s" % name)
+                    good = False
+                elif not _pole_ok(callee(k)["name"], kinds.get(_vec_of_index(k.get("o"), body, decls), set())) or \
+                        (k.get("a") and not _pole_ok(callee(k)["name"], kinds.get(_vec_of_index(k["a"][0], body, decls), set()))):
+                    which = "unsigned wrap-around point 1..1|0..0 (unsigned_split)" if callee(k)["name"].startswith("unsigned") else \
+                        "signed wrap-around point 01..1|10..0 (signed_split)"
+                    ctx.bad("wrapped_interval::%s applies %s to pieces produced by %s: this kernel is monotone only on operands that do not "
+                            "cross the %s" % (name, callee(k)["name"],
+                                              "/".join(sorted(kinds.get(_vec_of_index(k.get("o"), body, decls), set()) |
+                                                              kinds.get(_vec_of_index(k["a"][0], body, decls) if k.get("a") else None, set()))),
+                                              which), fn, k, sig="wi-wrong-pole:%s:%s" % (name, callee(k)["name"]))
                     good = False
                 elif av != need_arg:
                     ctx.bad("wrapped_interval::%s passes `%s` to %s; expected a piece of the argument %s" %
@@ -373,3 +400,209 @@ def r4_split_first(ctx):
 
 
 RULES.append(r4_split_first)
+
+
+# ------------------------------------------------------------------ Trunc case split
+def _eval3(c, val):
+    """three-valued evaluation of a condition; val(node) gives True/False for decided atoms, None otherwise"""
+    c = strip(c)
+    if not isinstance(c, dict):
+        return None
+    v = val(c)
+    if v is not None:
+        return v
+    k = c.get("k")
+    if (k == "un" and c.get("op") == "!"):
+        r = _eval3(c.get("e"), val)
+        return None if r is None else (not r)
+    if k == "call" and c.get("op") == "!" and "o" in c and not c.get("a"):
+        r = _eval3(c.get("o"), val)
+        return None if r is None else (not r)
+    if k == "bin" and c.get("op") in ("&&", "||"):
+        a, b = _eval3(c.get("L"), val), _eval3(c.get("R"), val)
+        if c["op"] == "&&":
+            if a is False or b is False:
+                return False
+            return True if (a is True and b is True) else None
+        if a is True or b is True:
+            return True
+        return False if (a is False and b is False) else None
+    return None
+
+
+REL = {"<": {"lt"}, "<=": {"lt", "eq"}, "==": {"eq"}, "!=": {"lt", "gt"}, ">": {"gt"}, ">=": {"gt", "eq"}}
+FLIP = {"lt": "gt", "gt": "lt", "eq": "eq"}
+
+
+def r6_trunc_cases(ctx):
+    ctx.rule("C13.r6", "wrapped_interval::Trunc keeps [lo(start), lo(end)] only when it is the image of the interval: same upper bits "
+             "needs lo(start) <= lo(end); upper bits differing by one needs lo(start) > lo(end) STRICTLY (with equality the interval has "
+             "2^k+1 values and covers every residue); every other case answers top", floor=2)
+    fs = ctx.db.fns(WII, pk=WIC + "::Trunc")
+    if not ctx.need(fs, "wrapped_interval::Trunc"):
+        return
+    for fn in fs:
+        body = fn["body"]
+        d = local_decls(body)
+        g = paths.guards(body)
+
+        def lower_of(e):
+            """'start' / 'end' when e is a local initialised with m_start.keep_lower(..) / m_end.keep_lower(..)"""
+            r = resolve_local(body, e, d)
+            if is_call(r, name="keep_lower"):
+                o = deref(r.get("o"))
+                if isinstance(o, dict) and o.get("k") == "mem" and is_this(o.get("b")):
+                    return {"m_start": "start", "m_end": "end"}.get(o.get("n"))
+            return None
+
+        def upper_of(e):
+            r = resolve_local(body, e, d)
+            if is_call(r, name="ashr"):
+                o = deref(r.get("o"))
+                if isinstance(o, dict) and o.get("k") == "mem" and is_this(o.get("b")):
+                    return {"m_start": "start", "m_end": "end"}.get(o.get("n"))
+            return None
+
+        def incremented(e):
+            """local copy of upper(start) that is ++'ed"""
+            e = strip(e)
+            if isinstance(e, dict) and e.get("k") == "ref" and e.get("rk") == "local":
+                dd = d.get(e.get("id")) or {}
+                init_up = any(upper_of(x) == "start" for x in walk(dd.get("i")) if isinstance(x, dict))
+                inc = [w for w in writes_to(body, e.get("id"))]
+                inc2 = [n for n in walk(body) if n.get("k") == "call" and n.get("op") == "++" and is_ref(n.get("o") or (n.get("a") or [None])[0]) and
+                        strip(n.get("o") or n["a"][0]).get("id") == e.get("id")]
+                return init_up and (len(inc) + len(inc2)) == 1
+            return False
+        n_dec = 0
+        for r in rets(body):
+            v = strip_move(r.get("v"))
+            while isinstance(v, dict) and v.get("k") == "ctor" and v.get("cp") and v.get("a"):
+                v = strip_move(v["a"][0])
+            if not (isinstance(v, dict) and v.get("k") == "ctor" and len(v.get("a", [])) == 2):
+                continue
+            if not (lower_of(v["a"][0]) == "start" and lower_of(v["a"][1]) == "end"):
+                continue
+            gs = [(c, p) for c, p in g.get(id(r), ()) if not isinstance(c, tuple)]
+            # which case?
+            case = None
+            for c, p in gs:
+                pp = cmp_parts(c)
+                if pp and pp[0] == "==":
+                    ia, ib = incremented(pp[1]), incremented(pp[2])
+                    ua, ub = (None if ia else upper_of(pp[1])), (None if ib else upper_of(pp[2]))
+                    if {ua, ub} == {"start", "end"} and p:
+                        case = "same"
+                    elif p and ((ia and ub == "end") or (ib and ua == "end")):
+                        case = "carry"
+            if case is None:
+                ctx.undecided("Trunc returns [lo(start), lo(end)] under guards that are neither the same-upper-bits nor the carry case",
+                              fn, r)
+                continue
+            allowed = {"same": {"lt", "eq"}, "carry": {"gt"}}[case]
+            reach = set()
+            for o in ("lt", "eq", "gt"):
+                def val(c, o=o):
+                    pp = cmp_parts(c)
+                    if pp and pp[0] in REL:
+                        a, b = lower_of(pp[1]), lower_of(pp[2])
+                        if a == "start" and b == "end":
+                            return o in REL[pp[0]]
+                        if a == "end" and b == "start":
+                            return FLIP[o] in REL[pp[0]]
+                    return None
+                if all(_eval3(c, val) is not (not p) for c, p in gs):
+                    reach.add(o)
+            n_dec += 1
+            extra = reach - allowed
+            if extra:
+                ctx.bad("wrapped_interval::Trunc, %s case: [lo(start), lo(end)] is returned also when lo(start) %s lo(end); then the "
+                        "truncated values are not all inside it (%s)" %
+                        ("same-upper-bits" if case == "same" else "upper-bits-differ-by-one",
+                         " / ".join({"lt": "<", "eq": "==", "gt": ">"}[x] for x in sorted(extra)),
+                         "with equal lower bits the interval has 2^k+1 elements and covers every k-bit value: the answer must be top"
+                         if case == "carry" else "the interval wraps around the whole ring"),
+                        fn, r, sig="trunc-case:%s:%s" % (case, ",".join(sorted(extra))))
+            else:
+                ctx.ok("Trunc %s case guarded by lo(start) %s lo(end)" % (case, "/".join(sorted(reach))), fn, r)
+        if n_dec == 0:
+            ctx.fail("rule C13.r6: no [lo(start), lo(end)] result found in Trunc")
+
+
+RULES += [r6_trunc_cases]
+
+
+# ------------------------------------------------------------------ hemisphere typing of the signed kernels
+def _bound_of(e, fn):
+    """'a' / 'b' / 'c' / 'd' for m_start, m_end, x.m_start, x.m_end"""
+    o = deref(e)
+    if isinstance(o, dict) and o.get("k") == "mem" and o.get("n") in ("m_start", "m_end"):
+        base = o.get("b")
+        if is_this(base):
+            return {"m_start": "a", "m_end": "b"}[o["n"]]
+        if is_param(base, fn, 0):
+            return {"m_start": "c", "m_end": "d"}[o["n"]]
+    return None
+
+
+def r7_signed_magnitudes(ctx):
+    ctx.rule("C13.r7", "wrapped_interval::signed_mul: an overflow test reached with a bound in the negative hemisphere (msb set) measures "
+             "that bound with get_signed_bignum, not with its unsigned magnitude (hemisphere typing over the 16 msb assignments)", floor=4)
+    fs = ctx.db.fns(WII, pk=WIC + "::signed_mul")
+    if not ctx.need(fs, "wrapped_interval::signed_mul"):
+        return
+    import itertools
+    for fn in fs:
+        body = fn["body"]
+        d = local_decls(body)
+        g = paths.guards(body)
+        msb_local = {}
+        for dd in d.values():
+            i = dd.get("i")
+            r = strip(i) if i is not None else None
+            if is_call(r, name="msb") and _bound_of(r.get("o"), fn):
+                if not writes_to(body, dd["id"]):
+                    msb_local[dd["id"]] = _bound_of(r.get("o"), fn)
+        sites = [n for n in walk(body) if is_call(n, name=("get_unsigned_bignum", "get_signed_bignum")) and _bound_of(n.get("o"), fn)]
+        if not sites:
+            ctx.fail("rule C13.r7: no magnitude extraction found in signed_mul")
+            continue
+        for n in sites:
+            bnd = _bound_of(n.get("o"), fn)
+            gs = [(c, p) for c, p in g.get(id(n), ()) if not isinstance(c, tuple)]
+            reach_neg = None
+            for vals in itertools.product((False, True), repeat=4):
+                env = dict(zip("abcd", vals))
+
+                def bval(e):
+                    e = strip(e)
+                    if isinstance(e, dict) and e.get("k") == "ref" and e.get("id") in msb_local:
+                        return env[msb_local[e["id"]]]
+                    if is_call(e, name="msb") and _bound_of(e.get("o"), fn):
+                        return env[_bound_of(e.get("o"), fn)]
+                    return None
+
+                def val(c):
+                    b = bval(c)
+                    if b is not None:
+                        return b
+                    if c.get("k") == "bin" and c.get("op") in ("==", "!="):
+                        l, r = _eval3(c.get("L"), val), _eval3(c.get("R"), val)
+                        if l is not None and r is not None:
+                            return (l == r) if c["op"] == "==" else (l != r)
+                    return None
+                if all(_eval3(c, val) is not (not p) for c, p in gs) and env[bnd]:
+                    reach_neg = env
+                    break
+            nm = callee(n)["name"]
+            if nm == "get_unsigned_bignum" and reach_neg is not None:
+                ctx.bad("signed_mul takes the UNSIGNED magnitude of `%s` in an overflow test that is reached when that bound is negative "
+                        "(msb set; e.g. msb(start,end,x.start,x.end) = %s): the difference of products is then meaningless (often negative), "
+                        "the test passes, and a product range wider than 2^w is returned as if it did not wrap" %
+                        (src(n.get("o")), tuple(int(reach_neg[k]) for k in "abcd")), fn, n,
+                        sig="signed-mul-unsigned-magnitude:%s" % src(n.get("o")))
+            else:
+                ctx.ok("%s.%s() %s" % (src(n.get("o")), nm, "(bound may be negative)" if reach_neg else "(bound never negative here)"), fn, n)
+
+
+RULES += [r7_signed_magnitudes]
